@@ -95,19 +95,28 @@ def run(ctx):
                     nraw += 1
                     arg = describe_operand(b, c.args[-1])
                     why = None
+                    from rules.common import ty_of as _ty_of
+                    origin = _ty_of(b, _component(b, c.args[-1]))
                     if fn == "write_f64" and "format(" in arg:
                         why = "digits produced by the float formatter"
-                    elif fn == "write_attr_body_val":
-                        callers = [x.callee.get("targs", "") for bb in rc.all_bodies() for x in bb.calls if x.name == "write_attr_body_val"]
-                        if callers and all(any(t.strip("[ ").startswith(nt) for nt in NON_TEXT_T) for t in callers):
-                            why = "generic Display value, instantiated only with numeric/bool types (%d callers)" % len(callers)
+                    elif origin and not any(t in origin for t in TEXTY) and any(origin.startswith(nt) for nt in NON_TEXT_T + ("core::fmt::Arguments", "swimos_recon::printer::Padding", "swimos_recon::printer::Indent")):
+                        # a generic helper analysed inside its caller: the value that reaches it has a concrete, non-text type there
+                        why = "generic Display value that is a %s here" % origin[:40]
+                    elif "T/#" in ta or "impl " in ta:
+                        callers = [x.callee.get("targs", "") for bb in rc.all_bodies() for x in bb.calls if x.name == fn and (x.defpath or "").startswith("swimos_recon::printer")]
+                        if callers and all(any(t.strip("[ ").startswith(nt) for nt in NON_TEXT_T + ("core::fmt::Arguments", "&core::fmt::Arguments")) or "fmt::Arguments" in t for t in callers):
+                            why = "generic Display value, instantiated only with numeric/bool types or format_args! (%d callers)" % len(callers)
                     r.check(why is not None, "printer/%s::%s/display-of-text" % (owner, fn), c.loc(), "text-like Display argument is not a user string: %s" % why,
                             "`%s` is written with Display directly (type %s): the characters of a string reach the output without write_string_literal, so a name that is not an identifier is printed unquoted and parses back as something else" % (arg[:50], ta[-40:]))
                 if c.name == "write_str" and c.args:
                     arg = describe_operand(b, c.args[-1])
                     if not arg.startswith("'"):
                         nraw += 1
-                        r.check(owner == "Padding", "printer/%s::%s/write_str(%s)" % (owner, fn, arg[:20]), c.loc(), "non-constant write_str only in Padding::fmt (whitespace chosen by the print strategy)",
+                        own2 = owner
+                        if not own2 and "::{closure" in b.defpath:
+                            pd = b.defpath.split("::{closure")[0]
+                            own2 = ((rc.by_def.get(pd) or {}).get("self_adt") or "").split("::")[-1]
+                        r.check(own2 == "Padding", "printer/%s::%s/write_str(%s)" % (own2, fn if own2 == owner else "fmt", arg[:20]), c.loc(), "non-constant write_str only in Padding::fmt (whitespace chosen by the print strategy)",
                                 "write_str(%s) writes a non-constant string in the printer without write_string_literal" % arg[:50])
         if nraw < 4:
             raise AnchorMissing("printer: expected >= 4 text-like Display/write_str sites to audit, found %d" % nraw)
@@ -158,8 +167,12 @@ def run(ctx):
         ws = [c for c in wl.calls if c.name == "write_str" and describe_operand(wl, c.args[-1]) == "literal"]
         r.check(len(ic) == 1 and len(ws) == 1 and any(d.startswith("is_identifier(") and l == "true" for d, l, _ in dom_guards(wl, ws[0].block)), "write_string_literal/bare-iff-identifier", where(wl), "the literal is written without quotes exactly when is_identifier(literal)",
                 "write_string_literal writes the bare text under %s" % ([(d, l) for d, l, _ in dom_guards(wl, ws[0].block)] if ws else "no write_str"))
-        esc = [c for c in wl.calls if c.name == "escape_text"]
-        r.check(len(esc) == 1 and any(d.startswith("needs_escape(") and l == "true" for d, l, _ in dom_guards(wl, esc[0].block)), "write_string_literal/escaped-iff-needs_escape", where(wl), "quoted text is escaped exactly when needs_escape(literal)")
+        # ... directly, or through escape_if_needed (which makes the same test)
+        holders = [wl]
+        if any(c.name == "escape_if_needed" for c in wl.calls):
+            holders.append(ctx.saw(md.fn(suffix="literal::escape_if_needed")))
+        esc = [(hb, c) for hb in holders for c in hb.calls if c.name == "escape_text"]
+        r.check(len(esc) == 1 and any(d.startswith("needs_escape(") and l == "true" for d, l, _ in dom_guards(esc[0][0], esc[0][1].block)), "write_string_literal/escaped-iff-needs_escape", where(wl), "quoted text is escaped exactly when needs_escape(literal)")
 
     with ctx.rule("C09.R1b", "T1", "a record written without the outer record's braces brings its own", floor=4) as r:
         # `@a 5`: the only item of a record with attributes is written without braces. If that item is a record, its own body would be
@@ -332,6 +345,7 @@ def run(ctx):
         emis = [c for c in et.calls if c.name in ("push", "push_str", "extend_from_slice", "write_char", "write_str") and len(c.args) == 2]
         emis.sort(key=lambda c: sum(1 for y in emis if y is not c and et.dominates(y.block, c.block)))
         enc, ubranch, passthru = {}, [], []
+        ub_calls = []
         for c in emis:
             a = describe_operand(et, c.args[1])
             g = dom_guards(et, c.block)
@@ -340,6 +354,7 @@ def run(ctx):
                 enc.setdefault(int(key[0]), []).append(lit(a) if lit(a) is not None else a)
             elif any(d.startswith("Lt(") and l == "true" for d, l, _ in g):
                 ubranch.append(lit(a) if lit(a) is not None else None)
+                ub_calls.append(c)
             else:
                 passthru.append(c)
         table = {}
@@ -374,13 +389,20 @@ def run(ctx):
                     if ks:
                         v = describe_rvalue(un, rv)
                         dec[chr(int(ks[0]))] = v.strip("'").encode().decode("unicode_escape") if v not in ("'\\\\'",) else "\\"
+        # a fall-through arm that hands back the code itself (`literal => literal`) decodes every remaining accepted letter as itself
+        ident = False
+        for i, j, p, rv, line in un.assigns():
+            if rv[0] == "use" and rv[1][0] in ("c", "m") and any(d.startswith("is_escape(") and l == "true" for d, l, _ in guards(un, i)):
+                g_ = guards(un, i)
+                scr = [d for d, l, _ in g_ if l == "otherwise" or l.isdigit()]
+                if describe_operand(un, rv[1]) in [d for d, l, _ in g_ if l == "otherwise"]:
+                    ident = True
         ie = ctx.saw(rc.fn(suffix="tokens::is_escape"))
-        accepted = set()
-        for i, j, p, rv, line in ie.assigns():
-            if rv[0] == "bin" and rv[1] == "Eq":
-                d = describe_rvalue(ie, rv)
-                lit = d[len("Eq(c, "):-1]
-                accepted.add(lit.strip("'").encode().decode("unicode_escape") if lit != "'\\\\'" else "\\")
+        if ident:
+            for letter_ in set(table.values()):
+                dec.setdefault(letter_, letter_)
+        # what is_escape answers for each letter the printer uses (and a few it does not), whatever form the predicate is written in
+        accepted = {ch_ for ch_ in set(table.values()) | set("bfnrt\"\\/u0x ") if ie.eval_const({1: ord(ch_)}) == {True}}
         for ch, letter in sorted(table.items()):
             r.check(dec.get(letter) == ch, "escape/%r<->%r/inverse" % (ch, letter), where(un), "printer writes %r as \\%s and the tokenizer reads \\%s as %r" % (ch, letter, letter, dec.get(letter)),
                     "printer writes %r as \\%s but the tokenizer reads \\%s as %r" % (ch, letter, letter, dec.get(letter)))
@@ -391,16 +413,38 @@ def run(ctx):
             if rv[0] == "bin" and rv[1] == "BitAnd" and describe_operand(et, rv[3]) == "15":
                 d = describe_operand(et, rv[2])
                 m_ = re.match(r"^Shr(?:Unchecked)?\(.*, (\d+)\)$", d)
-                masks.append((i, int(m_.group(1)) if m_ else 0))
+                if m_:
+                    masks.append((i, int(m_.group(1))))
+                else:
+                    # the digits may be produced by a loop over the shift amounts (`for shift in [12, 8, 4, 0]`): one write per element, in that order
+                    arr = None
+                    for i2, j2, p2, rv2, line2 in et.assigns():
+                        if rv2[0] == "agg" and rv2[1].get("array") and all(o[0] == "k" for o in rv2[2]) and len(rv2[2]) >= 2:
+                            vals_ = [o[1].get("v") for o in rv2[2]]
+                            if all(isinstance(v_, int) or (isinstance(v_, str) and v_.isdigit()) for v_ in vals_):
+                                arr = [int(v_) for v_ in vals_]
+                    if arr and "Shr" in d:
+                        for k_, sh in enumerate(arr):
+                            masks.append((i + k_ * 0.001, sh))
+                        ubranch.extend([None] * (len(arr) - 1))
+                    else:
+                        masks.append((i, 0))
         # order of emission = dominance order of the four index computations
-        masks.sort(key=lambda x: sum(1 for y in masks if et.dominates(y[0], x[0])))
+        masks.sort(key=lambda x: (sum(1 for y in masks if int(y[0]) != int(x[0]) and et.dominates(int(y[0]), int(x[0]))), x[0]))
         shifts = [k for _, k in masks]
         prefix = "".join(x for x in ubranch if x is not None)
         ndig = sum(1 for x in ubranch if x is None)
         consts_first = all(x is not None for x in ubranch[:len(ubranch) - ndig])
+        if not consts_first and len(ub_calls) >= 2:
+            # order by reachability rather than by position in the list (the constant part may sit in a helper that was spliced in)
+            cw = [c for c, x in zip(ub_calls, ubranch) if x is not None]
+            dw_ = [c for c, x in zip(ub_calls, ubranch) if x is None]
+            if cw and dw_ and all(et.dominates(c1.block, c2.block) for c1 in cw for c2 in dw_):
+                consts_first = True
+                ubranch = [x for x in ubranch if x is not None] + [None] * ndig
         # leading digits may be written as the constant "0" only as far as the guard (< 0x20) makes them zero
         r.check(consts_first and prefix == "\\u" + "0" * (4 - ndig) and 2 <= ndig <= 4 and shifts[-ndig:] == [12, 8, 4, 0][-ndig:] and len(shifts) == ndig, "escape_text/control=>\\uXXXX", where(et), "other control characters are written as \\u + 4 hex digits, most significant first",
-                "control characters are written as %r followed by %d digits with shifts in emission order %s" % (prefix, ndig, shifts))
+                "control characters are written as %r followed by %d digits with shifts in emission order %s (writes in the control arm: %s)" % (prefix, ndig, shifts, ubranch))
         ush = []
         for i, j, p, rv, line in un.assigns():
             if rv[0] == "bin" and rv[1] in ("Shl", "ShlUnchecked") and rv[3][0] == "k":
@@ -683,7 +727,7 @@ def run(ctx):
         from rules.C16 import numeric_kind_rules
         numeric_kind_rules(r, ctx, ctx.crate("swimos_form"))
 
-    with ctx.rule("C09.R5", "T9", "panic audit: parser, decoder, literal and recognizer modules", floor=15) as r:
+    with ctx.rule("C09.R5", "T9", "panic audit: parser, decoder, literal and recognizer modules", floor=10) as r:
         ALLOW = {
             ("unescape", "unwrap", "to_digit"): "to_digit(16) after is_ascii_hexdigit(c)",
             ("read_utf8", "index", "valid_up_to"): "slice up to Utf8Error::valid_up_to (always a char boundary <= len)",
